@@ -171,6 +171,20 @@ def _run_path(E, c, fnode, cls, params, canary):
             if "step2" in c.tags:
                 names = names + [k for k in params if k not in names]
         E.step2_yields = step2.yields if (step2 is not None and "step2" in c.tags) else None
+        phases = None
+        ph_k = 0
+        ph_at = -1                 # phase in which the step suspended (-1: the generator finished)
+        E.phase_waits = None
+        if "phases" in c.tags:
+            # generators made of sequential wait loops (builtins_.extract_phases): tag "phase=K" selects the step
+            # "resume at the head of wait loop K (0: first next()) and run to the next yield"
+            phases = B.extract_phases(fnode)
+            ph_k = int(next((t_[6:] for t_ in c.tags if isinstance(t_, str) and t_.startswith("phase=")), "0"))
+            if ph_k not in phases.conts:
+                raise Unsupported("generator %s has no phase %d" % (c.qual, ph_k))
+            names = names + [k for k in params if k not in names]
+            E.step2_yields = phases.yields
+            E.phase_waits = set(id(w) for w in phases.waits)
         for nm in names:
             if nm in params:
                 env[nm] = make_param(E, nm, params[nm], c)
@@ -202,7 +216,17 @@ def _run_path(E, c, fnode, cls, params, canary):
         exc = None
         result = None
         try:
-            if B.is_generator(fnode) and step is None and step2 is None:
+            if phases is not None:
+                try:
+                    try:
+                        E.exec_block(phases.conts[ph_k])
+                    except _Ret:
+                        pass                           # trailing `return`: the generator ends without a value
+                except B.StepYield as sy:
+                    result = sy.val
+                    s2_emit = True
+                    ph_at = sy.then[1] if sy.then[0] == "wait" else -1
+            elif B.is_generator(fnode) and step is None and step2 is None:
                 raise Unsupported("generator function %s needs a step extraction" % c.qual)
             if step2 is not None and "step2" not in c.tags:
                 E.exec_block(step2.prologue)          # "step2-init": post-conditions speak about L_<local>
@@ -228,7 +252,7 @@ def _run_path(E, c, fnode, cls, params, canary):
                     result = E.eval(step[2]) if step[2] is not None else None     # the value yielded next
                 except _Brk:
                     result = None          # `break` out of the runner loop: the generator ends, nothing is yielded
-            else:
+            elif phases is None:
                 E.exec_block(fnode.body)
             outcome = "return"
         except _Ret as r:
@@ -248,6 +272,9 @@ def _run_path(E, c, fnode, cls, params, canary):
                 env["L_" + k_] = v_          # final value of a local, for clauses guarded by the path they need
         E.frame.env = env
         env["result"] = result
+        if phases is not None:
+            env["step_emit"] = s2_emit      # a value was yielded
+            env["step_phase"] = ph_at       # wait loop in which the generator is now suspended; -1: finished
         if step2 is not None and "step2" in c.tags:
             env["step_emit"] = s2_emit      # a value was yielded (the generator is suspended)
             env["step_exit"] = s2_exit      # the step loop was left (the next resume does not start a pass)
